@@ -51,7 +51,7 @@ type Case struct {
 const wrongType = "WRONGTYPE Operation against a key holding the wrong kind of value"
 
 var namePool = []string{"a", "b", "c", "d", "e", "f", "g", "h", "k1", "k2", "k3", "k4", "k5", "k6", "k7", "k8", "k9", "k10",
-	"{t}1", "{t}2", "{t}3", "{u}1", "{u}2", "user:1", "user:2", "user:3", "x", "y", "z", "foo", "bar", "baz", "qux", "", "a b", "é", "k\r\n"}
+	"{t}1", "{t}2", "{t}3", "{t}4", "{t}5", "{t}6", "{u}1", "{u}2", "{u}3", "user:1", "user:2", "user:3", "x", "y", "z", "foo", "bar", "baz", "qux", "", "a b", "é", "k\r\n"}
 
 func genCase(r *gen.Rand, i int) any {
 	c := Case{}
@@ -105,6 +105,26 @@ func genCase(r *gen.Rand, i int) any {
 	for j := len(perm) - 1; j > 0; j-- {
 		k := r.Intn(j + 1)
 		perm[j], perm[k] = perm[k], perm[j]
+	}
+	if r.Chance(1, 3) {
+		// several distinct keys of one slot (hash tags): they end up in one command
+		tagged := []int{}
+		for j, n := range namePool {
+			if strings.HasPrefix(n, "{") {
+				tagged = append(tagged, j)
+			}
+		}
+		for j := len(tagged) - 1; j > 0; j-- {
+			k := r.Intn(j + 1)
+			tagged[j], tagged[k] = tagged[k], tagged[j]
+		}
+		rest := []int{}
+		for _, j := range perm {
+			if !strings.HasPrefix(namePool[j], "{") {
+				rest = append(rest, j)
+			}
+		}
+		perm = append(tagged, rest...)
 	}
 	if nk > len(perm) {
 		nk = len(perm)
